@@ -445,6 +445,9 @@ func (ex *Exec) assignedVars(n ast.Node) []*types.Var {
 	seen := map[*types.Var]bool{}
 	var out []*types.Var
 	add := func(e ast.Expr) {
+		if ex.storesThroughReference(e) {
+			return // the variable itself keeps its value: the store goes to the heap (havocked through the effect summary)
+		}
 		v, _ := rootVar(ex.info, e)
 		if v != nil && !isPkgLevel(v) && !seen[v] {
 			seen[v] = true
@@ -711,29 +714,44 @@ func (ex *Exec) rangeStmt(x *ast.RangeStmt, label string) {
 			ex.unsupported = "range over opaque map at " + pos
 			return
 		}
-		ex.loopInvariants(ls, "inv-init", pos)
-		// the domain at loop entry
+		// ghost: the set of keys already visited (usable in invariants as seen(k)); every key of the entry domain is
+		// visited exactly once, in an arbitrary order
+		seenSort := &Sort{Name: "(Array " + coll.Sort.Key.Name + " Bool)", Kind: KOpaque}
 		d0 := ex.heap(ex.st, coll.Sort.Dom)
 		h0 := ex.heap(ex.st, coll.Sort.Heap)
+		dom0 := ex.def("dom", Term{"(select " + d0.S + " " + coll.S + ")", seenSort})
+		vals0 := ex.def("vals", Term{"(select " + h0.S + " " + coll.S + ")", &Sort{Name: "(Array " + coll.Sort.Key.Name + " " + coll.Sort.Elem.Name + ")", Kind: KOpaque}})
+		seen := Term{"((as const " + seenSort.Name + ") false)", seenSort}
+		ex.seenStack = append(ex.seenStack, seen)
+		ex.loopInvariants(ls, "inv-init", pos)
 		ex.havocLoop(x.Body)
+		seen = ex.U.Fresh("seen", seenSort)
+		ex.seenStack[len(ex.seenStack)-1] = seen
+		// visited keys are keys of the entry domain
+		ex.facts = append(ex.facts, "(forall ((k "+coll.Sort.Key.Name+")) (! (=> (select "+seen.S+" k) (select "+dom0.S+" k)) :pattern ((select "+seen.S+" k))))")
 		ex.assumeInvariants(ls)
-		more := ex.U.Fresh("more", SBool)
+		k := ex.U.Fresh("k", coll.Sort.Key)
+		more := And(Term{"(select " + dom0.S + " " + k.S + ")", SBool}, Not(Term{"(select " + seen.S + " " + k.S + ")", SBool}))
 		bodySt, exitSt := ex.fork(more)
 		ex.loops = append(ex.loops, ctx)
 		ex.st = bodySt
-		k := ex.U.Fresh("k", coll.Sort.Key)
-		ex.fact(Term{"(select (select " + d0.S + " " + coll.S + ") " + k.S + ")", SBool})
 		ex.fact(Not(Eq(coll, Term{"0", coll.Sort})))
 		bind(x.Key, k, ut.Key())
-		bind(x.Value, ex.wf(Term{"(select (select " + h0.S + " " + coll.S + ") " + k.S + ")", coll.Sort.Elem}), ut.Elem())
-		ex.note("map range: arbitrary key of the entry domain each iteration (order and exhaustiveness not modelled)")
+		bind(x.Value, ex.wf(Term{"(select " + vals0.S + " " + k.S + ")", coll.Sort.Elem}), ut.Elem())
+		ex.note("map range: keys of the entry domain visited once each in arbitrary order (ghost set seen)")
 		ex.block(x.Body.List)
 		for _, cs := range ctx.conts {
 			ex.st = ex.merge(ex.st, cs)
 		}
+		ex.seenStack[len(ex.seenStack)-1] = Term{"(store " + seen.S + " " + k.S + " true)", seenSort}
 		ex.loopInvariants(ls, "inv-step", pos)
 		ex.loops = ex.loops[:len(ex.loops)-1]
 		ex.st = exitSt
+		// the loop ends when no unvisited key is left: `more` was false for the arbitrary k, hence for every key
+		ex.rawFact(Implies(exitSt.pc, Term{"(forall ((k " + coll.Sort.Key.Name + ")) (! (=> (select " + dom0.S + " k) (select " + seen.S + " k)) :pattern ((select " + dom0.S + " k))))", SBool}).S)
+		ex.seenStack[len(ex.seenStack)-1] = seen
+		ex.seenFinal = seen
+		ex.seenStack = ex.seenStack[:len(ex.seenStack)-1]
 	case *types.Chan:
 		ex.loopInvariants(ls, "inv-init", pos)
 		ex.havocLoop(x.Body)
@@ -780,5 +798,31 @@ func (ex *Exec) rangeStmt(x *ast.RangeStmt, label string) {
 	}
 	for _, b := range ctx.breaks {
 		ex.st = ex.merge(ex.st, b)
+	}
+}
+
+// storesThroughReference: the lvalue writes through a pointer or into a map (not into the variable's own value)
+func (ex *Exec) storesThroughReference(e ast.Expr) bool {
+	for {
+		switch x := e.(type) {
+		case *ast.ParenExpr:
+			e = x.X
+		case *ast.StarExpr:
+			return true
+		case *ast.SelectorExpr:
+			if sel, ok := ex.info.Selections[x]; ok && sel.Indirect() {
+				return true
+			}
+			e = x.X
+		case *ast.IndexExpr:
+			if t := ex.info.TypeOf(x.X); t != nil {
+				if _, isMap := t.Underlying().(*types.Map); isMap {
+					return true
+				}
+			}
+			e = x.X
+		default:
+			return false
+		}
 	}
 }
